@@ -473,7 +473,7 @@ fn build_other<K: Elem, V: Elem>(kind: u8, d: &MapDrv<K, V>) -> Map<K, V> {
 
 pub fn run(c: &mut Ctx) {
     c.run_scenarios(|c, idx, rng| {
-        let pair = C04_PAIRS[(idx % C04_PAIRS.len() as u64) as usize];
+        let pair = C04_PAIRS[(crate::util::mix(idx) % C04_PAIRS.len() as u64) as usize];
         for_pair!(pair, scenario(c, idx, rng));
     });
 }
@@ -485,7 +485,7 @@ fn contents<K: Elem, V: Elem>(m: &Map<K, V>) -> Vec<(u32, u16, u32, u16)> {
 }
 
 pub fn scenario<K: Elem, V: Elem>(c: &mut Ctx, idx: u64, rng: &mut Rng) {
-    let recipe = RECIPES[((idx / C04_PAIRS.len() as u64) % RECIPES.len() as u64) as usize];
+    let recipe = RECIPES[((crate::util::mix(idx) / C04_PAIRS.len() as u64) % RECIPES.len() as u64) as usize];
     // saturation needs clustered hashes to leave tombstones
     let plan = match recipe {
         Recipe::Saturated | Recipe::Tombstoned if rng.chance(3, 4) => *rng.pick(&[Plan::Ident, Plan::IdentOneTag, Plan::Zero, Plan::SamePos, Plan::Palette(1, 3), Plan::Tail]),
